@@ -12,11 +12,11 @@
 (* function may be cached through several Memory objects (Stores): stored  *)
 (* source, results and the writers table are per store, _FUNCTION_HASHES   *)
 (* is per function object only.                                            *)
-(* Switches (TRUE = current tree): FixD6, FixD13, FixD5c.                  *)
+(* Switches (TRUE = current tree): FixD6, FixD13, FixD5c, FixD20.          *)
 (***************************************************************************)
 EXTENDS Integers, Sequences, FiniteSets, TLC, Json
 
-CONSTANTS Procs, Slots, Vers, Keys, Stores, MaxOps, FixD6, FixD13, FixD5c, Gen
+CONSTANTS Procs, Slots, Vers, Keys, Stores, MaxOps, FixD6, FixD13, FixD5c, FixD20, Gen
 
 Objs == Procs \X Slots
 
@@ -101,6 +101,33 @@ Call(o, st, k) ==
   /\ Log([op |-> "call", p |-> p, i |-> o[2], s |-> st, k |-> k])
   /\ UNCHANGED ocode
 
+\* MemorizedFunc.call(): forced execution, the result is stored.  With FixD20 the stored source is validated first
+\* (as in a lookup); without it the result lands next to whatever source is stored (D20).
+Force(o, st, k) ==
+  LET v == ocode[o]
+      p == o[1]
+      stale == cid[o][st] # 0 /\ cid[o][st] # v
+      cid2 == IF cid[o][st] = 0 THEN v ELSE IF stale /\ FixD13 THEN v ELSE cid[o][st]
+      s == IF src[o][st] = 0 \/ stale THEN v ELSE src[o][st]
+      fast == fh[o] = v /\ (FixD6 => writer[p][st] = <<o, v>>)
+      valid == ~FixD20 \/ fast \/ code[st] = s
+      wipe == ~valid /\ (code[st] # 0 \/ FixD5c)
+      ent2 == IF wipe THEN ZK ELSE entries[st]
+  IN
+  /\ Step /\ v # 0
+  /\ IF FixD20 THEN cid' = [cid EXCEPT ![o][st] = cid2] /\ src' = [src EXCEPT ![o][st] = s] ELSE UNCHANGED <<cid, src>>
+  /\ IF valid
+     THEN UNCHANGED <<code, fh, writer>>
+     ELSE /\ code' = [code EXCEPT ![st] = s] /\ fh' = [fh EXCEPT ![o] = v] /\ writer' = [writer EXCEPT ![p][st] = <<o, v>>]
+  /\ entries' = [entries EXCEPT ![st] = [ent2 EXCEPT ![k] = v]]
+  /\ resp' = <<v, TRUE, v>>
+  /\ must' = [must EXCEPT ![st] =
+                IF wipe \/ (\E kk \in Keys : must[st][kk] # 0 /\ must[st][kk] # v)
+                THEN [kk \in Keys |-> IF kk = k THEN v ELSE 0]
+                ELSE [must[st] EXCEPT ![k] = v]]
+  /\ Log([op |-> "force", p |-> p, i |-> o[2], s |-> st, k |-> k])
+  /\ UNCHANGED ocode
+
 ClearFunc(o, st) ==
   /\ Step /\ ocode[o] # 0
   /\ entries' = [entries EXCEPT ![st] = ZK] /\ must' = [must EXCEPT ![st] = ZK]
@@ -118,7 +145,7 @@ Evict(st, k) ==
 Next ==
   \/ \E o \in Objs, v \in Vers : Define(o, v) \/ Swap(o, v)
   \/ \E p \in Procs : Restart(p)
-  \/ \E o \in Objs, st \in Stores, k \in Keys : Call(o, st, k)
+  \/ \E o \in Objs, st \in Stores, k \in Keys : Call(o, st, k) \/ Force(o, st, k)
   \/ \E o \in Objs, st \in Stores : ClearFunc(o, st)
   \/ \E st \in Stores, k \in Keys : Evict(st, k)
 
